@@ -137,3 +137,43 @@ def run_stream(ctx, res, prop, n_cases, oracle, ops_len=(6, 16), gen_ops=None, s
             d = H.compare(impl, r["ok"])
             if d:
                 res.disagree("%s.config-history:%s" % (prop, d.get("what", d["at"])), dict(case, at=d["at"]), impl=d["impl"], model=d["model"])
+
+
+
+class EmptyEnv:
+    """a schema whose fields are bound to environment variables (by name, derived, and through a prefix inherited three levels
+    down), with every one of those variables *set to the empty string*: the library treats an empty variable as no binding"""
+
+    def __init__(self, rng, tag):
+        import cincoconfig as cc
+        self.prefix = "CINCO_T_%s" % tag
+        s = cc.Schema(env=self.prefix)
+        s.mode = cc.StringField(default="production")
+        s.label = cc.StringField(default="none", env=self.prefix + "_EXPLICIT_LABEL")
+        s.db.host = cc.StringField(default="localhost")
+        s.db.port = cc.IntField(default=5432)
+        s.db.pool.size = cc.IntField(default=5)
+        s.db.pool.name = cc.StringField(default="main")
+        s.plain = cc.IntField(default=1, env=False)
+        self.schema = s
+        self.vars = [self.prefix + x for x in ("_MODE", "_EXPLICIT_LABEL", "_DB_HOST", "_DB_PORT", "_DB_POOL_SIZE", "_DB_POOL_NAME")]
+        self.values = {"mode": rng.choice(["debug", "test"]), "label": "primary", "plain": rng.randint(2, 9),
+                       "db": {"host": "db.example.org", "port": rng.randint(6000, 6999), "pool": {"size": rng.randint(6, 40), "name": "aux"}}}
+
+    def __enter__(self):
+        for v in self.vars:
+            os.environ[v] = ""
+        return self
+
+    def __exit__(self, *a):
+        for v in self.vars:
+            os.environ.pop(v, None)
+
+    def leaves(self):
+        return [("mode",), ("label",), ("plain",), ("db", "host"), ("db", "port"), ("db", "pool", "size"), ("db", "pool", "name")]
+
+    def get(self, tree, path):
+        cur = tree
+        for p in path:
+            cur = cur[p]
+        return cur
